@@ -146,6 +146,10 @@ package server
 //@   assert-at call LoadOrStore #1 : slog.AnyValue(arg1) == slog.AnyValue(layer.Digest)
 //@   assert-at call (*blobUpload).Prepare #1 : arg0 == upload && upload.Digest == layer.Digest
 //@   assert-at call (*blobUpload).Wait #1 : !ok ==> upload.Digest == layer.Digest
+// (C15) as in downloadBlob: Wait's deferred release() calls b.CancelFunc when the last waiter leaves,
+// possibly before the goroutine started by `go upload.Run` was scheduled
+//@   assert-at call (*blobUpload).Wait #1 : !ok ==> upload.CancelFunc != nil
+//@   assert-at call (*blobUpload).Wait #1 : ok ==> upload.CancelFunc != nil
 
 // ---- blobUpload.Run: b.done is set only on the path where g.Wait() returned nil (all parts
 // ---- uploaded) and after the commit PUT loop; b.err then is the error of the last commit attempt
